@@ -105,11 +105,14 @@ func (w *worker) packetServerCase(wire []byte, srvHead zerocopy.Headroom, mk fun
 		if o.needsIP && !addr.IsIP() {
 			continue
 		}
-		var sess zerocopy.UDPClientSession
-		if !w.protect("outbound "+o.name+" NewSession", func() { _, sess, err = o.c.NewSession(ctx) }) || err != nil {
-			continue
+		if o.packer == nil {
+			var sess zerocopy.UDPClientSession
+			if !w.protect("outbound "+o.name+" NewSession", func() { _, sess, err = o.c.NewSession(ctx) }) || err != nil {
+				continue
+			}
+			o.packer = sess.Packer // one outbound session per worker, as a relay keeps one per client session
 		}
-		pack(o.name, sess.Packer)
+		pack(o.name, o.packer)
 	}
 	pack("socks5", direct.NewSocks5PacketClientPacker(udpProxyAddrPort, udpRecvSize))
 
@@ -149,9 +152,19 @@ func (w *worker) packetClientCase(wire []byte, mk func() zerocopy.ClientUnpacker
 	}
 	packers := []sp{{"direct", direct.NewDirectPacketServerPackUnpacker(conn.AddrFromIPPort(downlinkSources[0]), true)}, {"ssnone", direct.ShadowsocksNonePacketServerPacker{}}, {"socks5", direct.Socks5PacketServerPacker{}}}
 	if w.ssServerUnp != nil {
-		if p, err := w.ssServerUnp.NewPacker(); err == nil {
-			packers = append(packers, sp{"ss2022", p})
+		if w.ssPacker == nil {
+			if p, err := w.ssServerUnp.NewPacker(); err == nil {
+				w.ssPacker = p
+			}
 		}
+		if w.ssPacker != nil {
+			packers = append(packers, sp{"ss2022", w.ssPacker})
+		}
+	}
+	if !w.isSeed {
+		// one (unpacker, server packer) pairing per case, rotating; seeds go through all of them
+		k := int(w.seq % uint64(len(packers)))
+		packers = packers[k : k+1]
 	}
 	n := min(len(wire), udpRecvSize)
 	counted := false
